@@ -16,5 +16,5 @@ CONSTANTS
   Lifts = {0}
   RhoS = {0}
 SPECIFICATION Spec
-INVARIANTS AdditiveSumsToSecret RefusedIffUnqualified Progress DklsChecksPass DklsProducts ECDSAOut
-CHECK_DEADLOCK FALSE
+INVARIANTS AdditiveSumsToSecret RefusedIffUnqualified DklsChecksPass DklsProducts ECDSAOut
+CHECK_DEADLOCK TRUE
